@@ -56,6 +56,9 @@ var quantLemmas = os.Getenv("GOVC_QUANT") == "1"
 
 func (e *Exec) emit(s *State, ob *Oblig) {
 	ob.Func = e.fnName()
+	if ob.ctx == nil && e.curCtx != nil {
+		ob.ctx = e.curCtx
+	}
 	if ob.Tags == nil && e.conUnder != nil {
 		ob.Tags = e.conUnder.Props
 	}
